@@ -93,6 +93,8 @@ def gen_sheet(rng, ids, n_classes=6):
                 rules.append(f'.k{k}::{pseudo} {{ ' + '; '.join(pd) + ' }')
         if rng.random() < 0.12:
             rules.append(f'.k{k}::marker {{ content: ' + gen_content(rng, ids, with_targets=False) + ' }')
+        if rng.random() < 0.05:
+            rules.append(f'.k{k}::marker {{ display: none }}')
     if rng.random() < 0.5:
         rules.append('li::marker { content: counters(list-item, ".") " " }')
     if rng.random() < 0.3:
@@ -220,8 +222,9 @@ def plain_elem(style_for, element):
             list_style = style['list_style_type']
         marker_style = style_for(element, 'marker')
         if marker_style['display'] == ('none',):
-            raise Unsupported('marker display none')
-        if marker_style['content'] not in ('normal', 'inhibit'):
+            # marker_to_box returns before creating any box (848642f): the element has no marker at all
+            list_style = None
+        elif marker_style['content'] not in ('normal', 'inhibit'):
             if marker_style['content'] == 'none':
                 raise Unsupported('marker content none')
             marker_content = plain_items(marker_style['content'])
